@@ -608,8 +608,19 @@ func c18ringCase(r *vh.Run, rng *rand.Rand, capacity, nops int, pool uint64, cla
 			k = 0 // the all-zero ClientID, which is also the key of a never-written slot
 		}
 		if rng.Intn(5) < 3 {
-			val++
-			ops = append(ops, c18op{true, k, val})
+			// addresses repeat: the same client re-presents its ClientID from the same address (a second carrier),
+			// and different clients can share an address
+			v := 0
+			switch {
+			case val > 0 && rng.Intn(3) == 0:
+				v = 1 + rng.Intn(val)
+			case val > 0 && rng.Intn(4) == 0:
+				v = val
+			default:
+				val++
+				v = val
+			}
+			ops = append(ops, c18op{true, k, v})
 		} else {
 			ops = append(ops, c18op{false, k, 0})
 		}
